@@ -120,7 +120,6 @@ func (ctx *BrokerContext) Broker() {
 			case <-time.After(time.Second * ProxyTimeout):
 				// This snowflake is no longer available to serve clients.
 				ctx.snowflakeLock.Lock()
-				defer ctx.snowflakeLock.Unlock()
 				if snowflake.index != -1 {
 					if request.natType == NATUnrestricted {
 						heap.Remove(ctx.snowflakes, snowflake.index)
@@ -130,6 +129,14 @@ func (ctx *BrokerContext) Broker() {
 					ctx.metrics.promMetrics.AvailableProxies.With(prometheus.Labels{"nat": request.natType, "type": request.proxyType}).Dec()
 					delete(ctx.idToSnowflake, snowflake.id)
 					close(request.offerChannel)
+					ctx.snowflakeLock.Unlock()
+				} else {
+					ctx.snowflakeLock.Unlock()
+					// A client took this snowflake from the heap just
+					// before the timeout and is sending its offer:
+					// pass it on, so that neither the client nor the
+					// proxy poll is left waiting forever.
+					request.offerChannel <- <-snowflake.offerChannel
 				}
 			}
 		}(request)
